@@ -114,6 +114,11 @@ pub fn kahan_prog<F: FElem>(toks: &[String]) -> String {
                 st.push(c);
                 i += 1;
             }
+            "s" => {
+                let n = st.len();
+                st.swap(n - 1, n - 2);
+                i += 1;
+            }
             "m" => {
                 let r = st.pop().unwrap();
                 *st.last_mut().unwrap() += r;
@@ -129,6 +134,80 @@ pub fn kahan_prog<F: FElem>(toks: &[String]) -> String {
                 let k = st.last().unwrap();
                 let (s, c) = k.verif_parts();
                 out.push(format!("{} {} {}", s.enc(), c.enc(), k.value().enc()));
+                i += 1;
+            }
+            _ => panic!("bad token"),
+        }
+    }
+    out.join(" | ")
+}
+
+/// the same machine over `Arithmetic` states; queries print both registers (through the hook)
+pub fn arith_regs_prog<F: FElem>(toks: &[String]) -> String {
+    use stats_ci::mean::Arithmetic;
+    use stats_ci::StatisticsOps;
+    let mut st: Vec<Arithmetic<F>> = Vec::new();
+    let mut out: Vec<String> = Vec::new();
+    let mut i = 0;
+    let f = |t: &str| -> F { pf::<F>(t) };
+    while i < toks.len() {
+        match toks[i].as_str() {
+            "E" => {
+                st.push(Arithmetic::new());
+                i += 1;
+            }
+            "a" => {
+                StatisticsOps::append(st.last_mut().unwrap(), f(&toks[i + 1])).unwrap();
+                i += 2;
+            }
+            "x" => {
+                let n: usize = toks[i + 1].parse().unwrap();
+                let v: Vec<F> = toks[i + 2..i + 2 + n].iter().map(|t| f(t)).collect();
+                StatisticsOps::extend(st.last_mut().unwrap(), &v).unwrap();
+                i += 2 + n;
+            }
+            "G" => {
+                // extend with a generated stream, `batch` observations per call of `extend`
+                let id: u64 = toks[i + 1].parse().unwrap();
+                let seed: u64 = toks[i + 2].parse().unwrap();
+                let param = f64::from_bits(u64::from_str_radix(&toks[i + 3][1..], 16).unwrap());
+                let n: usize = toks[i + 4].parse().unwrap();
+                let batch: usize = toks[i + 5].parse().unwrap();
+                let mut g = SeqGen::new(id, seed, param);
+                let top = st.last_mut().unwrap();
+                let mut left = n;
+                while left > 0 {
+                    let b = batch.min(left);
+                    let v: Vec<F> = (0..b).map(|_| F::from64(g.next())).collect();
+                    StatisticsOps::extend(top, &v).unwrap();
+                    left -= b;
+                }
+                i += 6;
+            }
+            "d" => {
+                let c = *st.last().unwrap();
+                st.push(c);
+                i += 1;
+            }
+            "s" => {
+                let n = st.len();
+                st.swap(n - 1, n - 2);
+                i += 1;
+            }
+            "m" => {
+                let r = st.pop().unwrap();
+                *st.last_mut().unwrap() += r;
+                i += 1;
+            }
+            "p" => {
+                let r = st.pop().unwrap();
+                let l = st.pop().unwrap();
+                st.push(l + r);
+                i += 1;
+            }
+            "q" => {
+                let ((s, c), (s2, c2), _) = st.last().unwrap().verif_parts();
+                out.push(format!("{} {} {} {} {} {}", s.enc(), c.enc(), (s + c).enc(), s2.enc(), c2.enc(), (s2 + c2).enc()));
                 i += 1;
             }
             _ => panic!("bad token"),
@@ -239,6 +318,66 @@ pub fn c08(out: &mut Vec<String>, rng: &mut Rng, tier: &str) {
             }
             toks.push("q".into());
             out.push(format!("C08 kahan g {} => {}", toks.join(" "), kahan_prog::<f32>(&toks)));
+        }
+    }
+    // right-deep merge trees: the accumulated register is the RIGHT operand of every merge
+    // (`r = chunk; r += acc; acc = r`), same-sign data
+    for (nchunks, f32v, gid) in [(40usize, true, 1u64), (400, true, 1), (2000, true, 1), (400, false, 1), (3000, false, 1),
+                                 (40, true, 0), (400, true, 0), (2000, true, 0), (2000, false, 0), (20000, true, 0)] {
+        if tier != "thorough" && nchunks > 2000 {
+            continue;
+        }
+        let mut g = SeqGen::new(gid, rng.next(), 1.1);
+        let mut toks: Vec<String> = vec!["E".into()];
+        for c in 0..nchunks {
+            toks.push("E".into());
+            let len = 1 + (c % 3);
+            toks.push("x".into());
+            toks.push(format!("{}", len));
+            for _ in 0..len {
+                toks.push(if f32v { fenc::<f32>(g.next()) } else { fenc::<f64>(g.next()) });
+            }
+            toks.push("s".into());
+            toks.push("m".into());
+        }
+        toks.push("q".into());
+        if f32v {
+            out.push(format!("C08 kahan g {} => {}", toks.join(" "), kahan_prog::<f32>(&toks)));
+        } else {
+            out.push(format!("C08 kahan f {} => {}", toks.join(" "), kahan_prog::<f64>(&toks)));
+        }
+    }
+    // the statistics built on the registers: `Arithmetic` histories (sum and sum of squares),
+    // including a long-lived state extended in many small batches
+    for i in 0..(if tier == "thorough" { 300 } else { 60 }) {
+        let nchunks = 1 + rng.below(6) as usize;
+        let style = rng.below(5);
+        let chunks: Vec<Vec<f64>> = (0..nchunks)
+            .map(|_| {
+                let n = rng.range(0, 40) as usize;
+                let mut g = SeqGen::new(style, rng.next(), (2.0f64).powi(rng.range(-12, 12) as i32));
+                (0..n).map(|_| g.next()).collect()
+            })
+            .collect();
+        if i % 2 == 0 {
+            let t = random_tree::<f64>(rng, &chunks);
+            out.push(format!("C08 kahanA f {} => {}", t.join(" "), arith_regs_prog::<f64>(&t)));
+        } else {
+            let t = random_tree::<f32>(rng, &chunks);
+            out.push(format!("C08 kahanA g {} => {}", t.join(" "), arith_regs_prog::<f32>(&t)));
+        }
+    }
+    let long_n: Vec<usize> = if tier == "thorough" { vec![200_000, 2_000_000, 8_000_000] } else { vec![100_000, 400_000] };
+    for n in long_n {
+        for (id, param, batch) in [(0u64, 1.1f64, 4usize), (1, 1.1, 1), (0, 0.1, 7), (2, 1.0, 3)] {
+            let toks: Vec<String> = vec![
+                "E".into(), "G".into(), format!("{}", id), format!("{}", rng.next() >> 1), param.enc(),
+                format!("{}", n), format!("{}", batch), "q".into(),
+            ];
+            out.push(format!("C08 kahanA g {} => {}", toks.join(" "), arith_regs_prog::<f32>(&toks)));
+            if n <= 400_000 {
+                out.push(format!("C08 kahanA f {} => {}", toks.join(" "), arith_regs_prog::<f64>(&toks)));
+            }
         }
     }
     // long streams (generated on both sides): constants, same-sign, mixed, cancelling, head+increments
